@@ -134,6 +134,33 @@ def parseNats (s : String) : Option (List Nat) :=
     | some c, some l => some (c :: l)
     | _, _ => none) (some [])
 
+/-- the provided methods of `Iterator` on an iterator that yields the list `l` (`Cube::all`,
+    `Ecube::all`): `a` calls of `next`, one adaptor, one more `next` -/
+def listAdaptor {α : Type} (l : List α) (a : Nat) (kind : String) (b : Nat) (sh : α → String)
+    (le : α → α → Bool) : String :=
+  let shw (o : Option α) : String := match o with | some x => sh x | none => "none"
+  let rest := l.drop a
+  match kind with
+  | "nth" | "skip" =>
+    let r := rest[b]?
+    let r2 := if r.isSome then rest[b + 1]? else none
+    s!"ok {shw r} {shw r2}"
+  | "stepby" =>
+    let polls := (List.range 5).map (fun k => rest[k * b]?)
+    -- once exhausted, always exhausted
+    let (out, _) := polls.foldl (fun (acc : List String × Bool) r =>
+      if acc.2 then (acc.1 ++ ["none"], true)
+      else (acc.1 ++ [shw r], r.isNone)) ([], false)
+    "ok " ++ " ".intercalate out
+  | "count" => s!"ok {rest.length} none"
+  | "last" => s!"ok {shw rest.getLast?} none"
+  | "max" => s!"ok {shw (rest.foldl (fun acc x => match acc with
+      | none => some x | some m => if !(le m x) then some m else some x) none)} none"
+  | "min" => s!"ok {shw (rest.foldl (fun acc x => match acc with
+      | none => some x | some m => if !(le m x) then some x else some m) none)} none"
+  | "hint" => "ok 1"
+  | _ => "bad-op"
+
 /-- `sop expr n <RPN>`: operands are cube lists, `&` `|` `!` the operators of `Sop`; `none` = panic,
     `some none` = malformed line -/
 def evalSopExpr (n : Nat) : List String → List Sop → Option (Option Sop)
@@ -519,6 +546,13 @@ def step (line : String) : String :=
     | some n => let l := Cube.all n
       s!"ok {l.length} {showHexNat (l.foldl (fun h c => digestStep (digestStep h (BitVec.ofNat 64 c.pos.toNat)) (BitVec.ofNat 64 c.neg.toNat)) 14695981039346656037)}"
     | _ => "bad-op")
+  | ["cube", "alla", n, a, kind, b] => (match n.toNat?, a.toNat?, b.toNat? with
+    | some n, some a, some b => listAdaptor (Cube.all n) a kind b showCube Cube.le
+    | _, _, _ => "bad-op")
+  | ["ecube", "alla", n, a, kind, b] => (match n.toNat?, a.toNat?, b.toNat? with
+    | some n, some a, some b => listAdaptor (Ecube.all n) a kind b showEcube
+        (fun x y => x.vars.toNat < y.vars.toNat || (x.vars == y.vars && (!x.xnor || y.xnor)))
+    | _, _, _ => "bad-op")
   | ["cube", "display", c] => (match parseCube c with
     | some c => "ok " ++ showBytes (Display.cube c) | _ => "bad-op")
   | ["cube", "nthvar", v, inv] => (match v.toNat? with
